@@ -419,6 +419,8 @@ class Interp:
             t = self.truth(v)
             return logical_not(t)
         if isinstance(node.op, ast.USub):
+            if isinstance(v, Instance) and "__neg__" in v.attrs:
+                return self.call(v.attrs["__neg__"], [], {})
             if isinstance(v, NDArr):
                 return A.elementwise(neg, v, name="neg")
             return neg(v)
@@ -473,6 +475,10 @@ class Interp:
 
     def instance_binop(self, op, a, b):
         nm = self._DUNDER.get(op)
+        if nm and isinstance(a, Instance) and f"__{nm}__" in a.attrs:
+            return self.call(a.attrs[f"__{nm}__"], [b], {})
+        if nm and isinstance(b, Instance) and f"__r{nm}__" in b.attrs:
+            return self.call(b.attrs[f"__r{nm}__"], [a], {})
         if nm and isinstance(a, Instance) and a.cls is not None:
             m, _ = a.cls.lookup(f"__{nm}__")
             if m is not None:
